@@ -1500,9 +1500,9 @@ class LiteralForms(ast.NodeTransformer):
 
     def visit_Call(self, node: ast.Call):
         self.generic_visit(node)
-        if isinstance(node.func, ast.Name) and node.func.id == "dict" and not node.args and node.keywords and all(k.arg is not None for k in node.keywords):
+        if isinstance(node.func, ast.Name) and node.func.id == "dict" and not node.args and node.keywords:
             self.count += 1
-            return ast.copy_location(ast.Dict(keys=[ast.Constant(k.arg) for k in node.keywords], values=[k.value for k in node.keywords]), node)
+            return ast.copy_location(ast.Dict(keys=[(ast.Constant(k.arg) if k.arg is not None else None) for k in node.keywords], values=[k.value for k in node.keywords]), node)
         if isinstance(node.func, ast.Name) and node.func.id == "getattr" and len(node.args) == 2 and not node.keywords and isinstance(node.args[1], ast.Constant) and isinstance(node.args[1].value, str) and node.args[1].value.isidentifier():
             self.count += 1
             return ast.copy_location(ast.Attribute(value=node.args[0], attr=node.args[1].value, ctx=ast.Load()), node)
@@ -1512,15 +1512,25 @@ class LiteralForms(ast.NodeTransformer):
                 if k.arg is None and isinstance(k.value, ast.Name) and k.value.id in self.tables[-1]:
                     d = self.tables[-1][k.value.id]
                     given = {x.arg for x in node.keywords if x.arg is not None}
-                    if any(kk.value in given for kk in d.keys):
+                    if any(kk is not None and kk.value in given for kk in d.keys):
                         return node
                     for kk, vv in zip(d.keys, d.values):
-                        kws.append(ast.keyword(arg=kk.value, value=clone_ast(vv)))
+                        kws.append(ast.keyword(arg=(kk.value if kk is not None else None), value=clone_ast(vv)))
                     self.drop[-1].add(k.value.id)
                 else:
                     kws.append(k)
             node.keywords = kws
             self.count += 1
+        return node
+
+    def visit_DictComp(self, node: ast.DictComp):
+        self.generic_visit(node)
+        if len(node.generators) == 1 and not node.generators[0].ifs and isinstance(node.generators[0].target, ast.Name) and isinstance(node.generators[0].iter, (ast.Tuple, ast.List)) and node.generators[0].iter.elts and all(isinstance(e, ast.Name) for e in node.generators[0].iter.elts):
+            v = node.generators[0].target.id
+            if isinstance(node.value, ast.Name) and node.value.id == v and isinstance(node.key, ast.Attribute) and node.key.attr == "__name__" and isinstance(node.key.value, ast.Name) and node.key.value.id == v:
+                # a table of functions by their own names (the names of local defs are the def names)
+                self.count += 1
+                return ast.copy_location(ast.Dict(keys=[ast.Constant(e.id) for e in node.generators[0].iter.elts], values=[clone_ast(e) for e in node.generators[0].iter.elts]), node)
         return node
 
     def visit_Expr(self, node: ast.Expr):
@@ -1541,9 +1551,9 @@ class LiteralForms(ast.NodeTransformer):
 
 def _as_dict_display(v: ast.AST) -> Optional[ast.Dict]:
     """a dict display / dict(k=v) with constant identifier keys and simple values"""
-    if isinstance(v, ast.Call) and isinstance(v.func, ast.Name) and v.func.id == "dict" and not v.args and v.keywords and all(k.arg is not None for k in v.keywords):
-        v = ast.Dict(keys=[ast.Constant(k.arg) for k in v.keywords], values=[k.value for k in v.keywords])
-    if isinstance(v, ast.Dict) and v.keys and all(isinstance(k, ast.Constant) and isinstance(k.value, str) and k.value.isidentifier() for k in v.keys) and all(_pure_simple(e) for e in v.values):
+    if isinstance(v, ast.Call) and isinstance(v.func, ast.Name) and v.func.id == "dict" and not v.args and v.keywords:
+        v = ast.Dict(keys=[(ast.Constant(k.arg) if k.arg is not None else None) for k in v.keywords], values=[k.value for k in v.keywords])
+    if isinstance(v, ast.Dict) and v.values and all(k is None or (isinstance(k, ast.Constant) and isinstance(k.value, str) and k.value.isidentifier()) for k in v.keys) and all(_pure_simple(e) for e in v.values):
         return v
     return None
 
